@@ -798,41 +798,44 @@ package rapid
 //@   ensures [C12] implies(!result, m.best == old(m.best) && (u >= old(m.best) || u < 5 || !condP(u)))
 //@   modifies m.best, drawn, lockmode, cancelled
 
-//@ define minv(m) = m.cond != nil && condP(m.best) && m.best >= 5
+//@ define minv(m) = m.cond != nil && m.best >= 5
+//@ define keepsP(m) = implies(old(condP(m.best)), condP(m.best)) && m.best <= old(m.best)
 
 //@ func (*minimizer).rShift
 //@   requires [C12] minv(m)
-//@   ensures [C12] minv(m) && m.best <= old(m.best)
+//@   ensures [C12] minv(m) && keepsP(m)
 //@   modifies m.best, drawn, lockmode, cancelled
-//@   loop 0 invariant [C12] minv(m) && m.best <= old(m.best)
+//@   loop 0 invariant [C12] minv(m) && keepsP(m)
 
 //@ func (*minimizer).unsetBits
 //@   requires [C12] minv(m)
-//@   ensures [C12] minv(m) && m.best <= old(m.best)
+//@   ensures [C12] minv(m) && keepsP(m)
 //@   modifies m.best, drawn, lockmode, cancelled
-//@   loop 0 invariant [C12] minv(m) && m.best <= old(m.best) && i < 64
+//@   loop 0 invariant [C12] minv(m) && keepsP(m) && i < 64
 //@   loop 0 decreases i + 1
 
 //@ func (*minimizer).sortBits
 //@   requires [C12] minv(m)
-//@   ensures [C12] minv(m) && m.best <= old(m.best)
+//@   ensures [C12] minv(m) && keepsP(m)
 //@   modifies m.best, drawn, lockmode, cancelled
-//@   loop 0 invariant [C12] minv(m) && m.best <= old(m.best) && i < 64
+//@   loop 0 invariant [C12] minv(m) && keepsP(m) && i < 64
 //@   loop 0 decreases i + 1
-//@   loop 1 invariant [C12] minv(m) && m.best <= old(m.best) && 0 <= j && j <= i && 0 <= i && i < 64
+//@   loop 1 invariant [C12] minv(m) && keepsP(m) && 0 <= j && j <= i && 0 <= i && i < 64
 //@   loop 1 decreases i - j
 
 //@ func (*minimizer).binSearch
-//@   requires [C12] minv(m) && monotoneP() && smallNotP()
-//@   ensures [C12] minv(m) && m.best <= old(m.best) && leastP(m.best)
+//@   requires [C12] minv(m)
+//@   ensures [C12] minv(m) && keepsP(m)
+//@   ensures [C12] implies(old(condP(m.best)) && monotoneP() && smallNotP(), leastP(m.best))
 //@   modifies m.best, drawn, lockmode, cancelled
-//@   loop 0 invariant [C12] minv(m) && m.best <= old(m.best) && j == m.best && i <= j && forallu(y, implies(y < i, !condP(y)))
+//@   loop 0 invariant [C12] minv(m) && keepsP(m) && j == m.best && i <= j
+//@   loop 0 invariant [C12] implies(old(condP(m.best)) && monotoneP() && smallNotP(), forallu(y, implies(y < i, !condP(y))))
 //@   loop 0 decreases j - i
 
 //@ func minimize
 //@   noframe "calls the condition callback"
-//@   requires [C12] cond != nil && condP(u) && monotoneP()
-//@   ensures [C12] leastP(result)
+//@   requires [C12] cond != nil
+//@   ensures [C12] implies(condP(u) && monotoneP(), leastP(result))
 //@   ensures [C05,C12] result <= u
 //@   modifies heap, drawn, lockmode, cancelled
 //@   loop 0 invariant [C12] i <= 5 && i <= u && forallu(y, implies(y < i, !condP(y)))
